@@ -177,7 +177,7 @@ func init() {
 }
 
 func runC08(b *Batch) {
-	n := b.Pick(8000, 640000) / b.NBatches
+	n := b.Pick(12000, 640000) / b.NBatches
 	for i := 0; i < n; i++ {
 		if b.Skip(i) {
 			continue
